@@ -96,7 +96,7 @@ theorem build_shape : ∀ (a : A) (inh : Inh) (c : CN), build f env inh a = .ok 
       | error e => simp [hk] at h
       | ok ks =>
         simp only [hk, ebind_ok] at h
-        cases hn : checkNames (flatNames ks) with
+        cases hn : checkNames (caseKidNames ks) with
         | error e => simp [hn] at h
         | ok u =>
           simp only [hn, ebind_ok, epure, Except.ok.injEq] at h
